@@ -8,7 +8,7 @@
    sequences (FIFO execution of the per-message tasks with an atomic fan-out, a non-suspending
    Broadcast.send, cancellation before the old handler runs again, the API receiver surviving the
    restart, no receiver overflow) is a runtime assumption exercised by the trace-refinement runs. *)
-From Verif Require Import model.DataSourcing proofs.DataSourcingFacts.
+From Verif Require Import gen.DataSourcing model.DataSourcing proofs.DataSourcingFacts.
 
 (* Every message accepted by a component's API receiver is in exactly one place: the take log splits
    into delivered tasks ++ in-flight tasks, everything sent is the fan-out of the delivered tasks, and
@@ -122,6 +122,24 @@ Theorem C20_handler_start_runs : forall cats es s c s' o, run cats init es = Som
   step cats s (HandlerStart c) = Some (s', o) -> st_hand s' c = Some (HRunning (st_subs s c)).
 Proof. exact handler_start_runs. Qed.
 
+(* The request channel of the production wiring (`_DataPipeline._data_sourcing_request_sender`): with the
+   receiver capacity the code configures (`_REQUEST_RECV_BUFFER_SIZE`, re-translated from /repo on every run;
+   that the `limit=` of the actor's receiver IS this constant is checked on the real receiver by the "pipeline"
+   stream) a burst of up to that many requests issued back to back before the actor runs loses none and keeps
+   its order; each is then served by its own AddMetric event. *)
+Theorem C20_request_burst_served : forall A (rs : list A),
+  (length rs <= Z.to_nat request_recv_buffer_size)%nat ->
+  req_burst (Z.to_nat request_recv_buffer_size) [] rs = rs.
+Proof. exact (fun A rs => req_burst_from_empty A (Z.to_nat request_recv_buffer_size) rs). Qed.
+
+Theorem C20_request_queue_bounded : forall A (cap : nat) (rs q : list A),
+  (0 < cap)%nat -> (length q <= cap)%nat -> length (req_burst cap q rs) = Nat.min cap (length q + length rs).
+Proof. exact req_burst_length. Qed.
+
+Example C20_request_capacity_nonvacuous :
+  0 < request_recv_buffer_size /\ req_burst 3 [] [1; 2; 3; 4; 5] = [3; 4; 5] /\ req_burst 3 [] [1; 2; 3] = [1; 2; 3].
+Proof. vm_compute. repeat split; reflexivity. Qed.
+
 (* The trace checker used for the correspondence accepts only runs of the transition system, so the
    theorems above apply to every recorded trace of the real code it accepts. *)
 Theorem C20_checked_traces_are_runs : forall cats evs s s',
@@ -159,3 +177,5 @@ Print Assumptions C20_opening_call_frame.
 Print Assumptions C20_request_while_opening.
 Print Assumptions C20_handler_start_runs.
 Print Assumptions C20_checked_traces_are_runs.
+Print Assumptions C20_request_burst_served.
+Print Assumptions C20_request_queue_bounded.
